@@ -182,8 +182,8 @@ main(void)
 	/* E4: at every call site the depth leaves room for the native's (proved) need and peak */
 	ASSUME(t0n_dpi >= C05_NEED && t0n_dpi <= T0N_NDP - C05_PEAK);
 #else
-	ASSUME(t0n_dpi >= 9 && t0n_dpi <= T0N_NDP - 9);
-	ASSUME(t0n_rpi >= 9 && t0n_rpi <= T0N_NRP - 9);
+	ASSUME(t0n_dpi >= 8 && t0n_dpi <= T0N_NDP - 8);
+	ASSUME(t0n_rpi >= 8 && t0n_rpi <= T0N_NRP - 8);
 #endif
 	c05_env_common(&the_ctx);
 	c05_env(&the_ctx);
